@@ -20,3 +20,11 @@ func init() {
 			{Name: "tables", Run: "^TestTable", Shards: [2]int{4, 8}},
 		}})
 }
+
+func init() {
+	reg(PropCfg{ID: "C04", Pkg: "c04", Level: "translation_validation",
+		Rule: "programs of the language fragment both backends implement (typed model grammar without trigger statements, spawn and capturing closures; unicode strings included), each run by the tree-walking interpreter and compiled+run on the VM: host writes and outcome class (ok / uncaught throw + message / fatal kind by name) must agree; non-trivial = program executes >= 8 reference steps with output or a non-ok outcome, or leaves the modelled fragment; distinct by program text",
+		Jobs: []Job{
+			{Name: "diff", Run: "^TestDiff$", Checks: [2]int{500, 8000}, Shards: [2]int{6, 16}},
+		}})
+}
